@@ -3,8 +3,21 @@ package interp
 // Later additions by the framework's main author: sync.Map, bcrypt error values.
 
 import (
+	"bytes"
+	"encoding/hex"
 	"errors"
 	"go/types"
+	"html"
+	"math"
+	"net"
+	"net/url"
+	"path"
+	"sort"
+	"strconv"
+	"strings"
+	"time"
+	"unicode"
+	"unicode/utf8"
 )
 
 var (
@@ -83,5 +96,80 @@ func init() {
 			}
 		}
 		return nil
+	})
+}
+
+// A broader registry of real standard-library functions (called natively when all arguments are
+// concrete): a change to fosite that starts using one of them must not end in "unmodelled".
+func init() {
+	for n, f := range map[string]any{
+		"strings.ToTitle": strings.ToTitle, "strings.LastIndexByte": strings.LastIndexByte, "strings.LastIndexAny": strings.LastIndexAny,
+		"strings.SplitAfter": strings.SplitAfter, "strings.SplitAfterN": strings.SplitAfterN, "strings.TrimFunc": nil,
+		"strings.ContainsAny": strings.ContainsAny, "strings.ToValidUTF8": strings.ToValidUTF8, "strings.CutPrefix": strings.CutPrefix,
+		"strings.CutSuffix": strings.CutSuffix, "strings.EqualFold": strings.EqualFold,
+		"strconv.ParseBool": strconv.ParseBool, "strconv.FormatUint": strconv.FormatUint, "strconv.Unquote": strconv.Unquote,
+		"strconv.QuoteToASCII": strconv.QuoteToASCII, "strconv.AppendInt": nil, "strconv.FormatFloat": strconv.FormatFloat,
+		"bytes.Contains": bytes.Contains, "bytes.HasPrefix": bytes.HasPrefix, "bytes.HasSuffix": bytes.HasSuffix, "bytes.TrimSpace": bytes.TrimSpace,
+		"bytes.Index": bytes.Index, "bytes.ToLower": bytes.ToLower, "bytes.ToUpper": bytes.ToUpper, "bytes.Join": bytes.Join,
+		"bytes.Split": bytes.Split, "bytes.TrimRight": bytes.TrimRight, "bytes.TrimLeft": bytes.TrimLeft, "bytes.TrimPrefix": bytes.TrimPrefix,
+		"bytes.TrimSuffix": bytes.TrimSuffix, "bytes.EqualFold": bytes.EqualFold,
+		"math.Floor": math.Floor, "math.Ceil": math.Ceil, "math.Trunc": math.Trunc, "math.Round": math.Round, "math.Abs": math.Abs,
+		"math.Max": math.Max, "math.Min": math.Min, "math.IsNaN": math.IsNaN, "math.IsInf": math.IsInf, "math.Mod": math.Mod, "math.Pow": math.Pow,
+		"unicode.IsPunct": unicode.IsPunct, "unicode.IsControl": unicode.IsControl, "unicode.IsPrint": unicode.IsPrint,
+		"unicode/utf8.RuneLen": utf8.RuneLen, "unicode/utf8.Valid": utf8.Valid, "unicode/utf8.RuneCount": utf8.RuneCount,
+		"path.Clean": path.Clean, "path.Join": path.Join, "path.Base": path.Base, "path.Dir": path.Dir, "path.Ext": path.Ext,
+		"html.EscapeString": html.EscapeString, "html.UnescapeString": html.UnescapeString,
+		"sort.SearchStrings": sort.SearchStrings, "sort.StringsAreSorted": sort.StringsAreSorted,
+		"encoding/hex.EncodeToString": hex.EncodeToString, "encoding/hex.DecodeString": hex.DecodeString,
+		"net.SplitHostPort": net.SplitHostPort, "net.JoinHostPort": net.JoinHostPort,
+		"net/url.JoinPath": url.JoinPath,
+		"time.ParseDuration": time.ParseDuration,
+	} {
+		if f != nil {
+			if _, dup := nativeFuncs[n]; !dup {
+				regNative(n, f)
+			}
+		}
+	}
+	// math on symbolic (half-integral) floats: Trunc/Floor keep the engine's representation exact
+	regSym("math.Trunc", func(fr *frame, a []value) value {
+		f := a[0].(symFloat)
+		if !f.half {
+			return f
+		}
+		return symFloat{t: mkQuo(f.t, mkInt(2))}
+	})
+	regSym("math.Floor", func(fr *frame, a []value) value {
+		f := a[0].(symFloat)
+		if !f.half {
+			return f
+		}
+		return symFloat{t: mkFloorDiv(f.t, 2)}
+	})
+	// sort with callbacks into the interpreter
+	sortSlice := func(fr *frame, a []value) value {
+		xs := a[0].(iface).v.([]value)
+		less := a[1]
+		// insertion sort on a copy of the values (stable), comparing by index through a scratch slice
+		n := len(xs)
+		for i := 1; i < n; i++ {
+			for j := i; j > 0; j-- {
+				if !fr.truth(call(fr.i, fr, 0, less, []value{j, j - 1})) {
+					break
+				}
+				xs[j], xs[j-1] = xs[j-1], xs[j]
+			}
+		}
+		return nil
+	}
+	reg("sort.Slice", sortSlice)
+	reg("sort.SliceStable", sortSlice)
+	regSym("strings.ToUpper", func(fr *frame, a []value) value {
+		s := strArg(a[0])
+		u := mkUF("u_upper", SStr, s)
+		fr.i.m.assume(mkEq(mkLen(u), mkLen(s)))
+		// a string without lower-case ASCII letters is its own upper-casing (ASCII alphabet assumed)
+		fr.i.m.assume(mkImplies(mkNot(mkInRe(s, `(re.++ re.all (re.range "a" "z") re.all)`)), mkEq(u, s)))
+		return u
 	})
 }
